@@ -353,7 +353,8 @@ def run (ρ : List FunDef) : Nat → Job → St → R
                          (.val r, s2.setCell l { rc with ret := false })
                        else
                          -- first assignment: the rhs is cloned (a temporary is adopted), the lhs Data points to the copy
-                         (match cloneIfNecessary s2 r with
+                         -- (known-finding rule 1 again: a variable's record that still carries the return-value flag is adopted)
+                         (match cloneIfNecessary (tagParamAlias s2 r) r with
                           | (.val r2, s3) => (.val l, s3.setCell l { s3.cell r2 with ret := false, const := false })
                           | x => x)
                    | .bool _, .bool b => (.val l, s2.setVal l (.bool b))
